@@ -25,6 +25,7 @@ type TokenBucketRateLimiter struct {
 type bucket struct {
 	tokens     int
 	lastRefill time.Time
+	dropped    bool       // removed from the map by cleanup; never spend from it again
 	mutex      sync.Mutex // Only lock when modifying tokens
 }
 
@@ -48,6 +49,13 @@ func (rl *TokenBucketRateLimiter) Allow(clientIP string) bool {
 	b := rl.getOrCreateBucket(clientIP)
 
 	b.mutex.Lock()
+	for b.dropped {
+		// cleanup removed this bucket after we had looked it up: spending from it
+		// and then from its (full) replacement would be two bursts at once
+		b.mutex.Unlock()
+		b = rl.getOrCreateBucket(clientIP)
+		b.mutex.Lock()
+	}
 	defer b.mutex.Unlock()
 
 	rl.refillTokens(b)
@@ -124,13 +132,15 @@ func (rl *TokenBucketRateLimiter) cleanup() {
 		ip := key.(string)
 		b := value.(*bucket)
 
+		// Decide and delete under the bucket's lock: a request that comes in
+		// between would refill and spend from this bucket, and after the delete
+		// find a fresh, full one - a double burst.
 		b.mutex.Lock()
-		shouldDelete := b.lastRefill.Before(cutoff)
-		b.mutex.Unlock()
-
-		if shouldDelete {
+		if b.lastRefill.Before(cutoff) {
+			b.dropped = true
 			rl.buckets.Delete(ip)
 		}
+		b.mutex.Unlock()
 		return true // continue iteration
 	})
 }
